@@ -103,6 +103,7 @@ type sentPkt struct {
 	arrived          int
 	replied          int
 	replySent        int // replies the destination actually put on the wire (small ones only)
+	fitReply         int // larger replies that fit both sides with room to spare (C05)
 	mustDeliver      bool
 	sockGen          int
 }
@@ -232,6 +233,7 @@ func Run(s *simrt.Sim, f Focus) {
 		tHosts[k] = w.AddHost(fmt.Sprintf("target%d", k), tIP4[k], tIP6[k])
 	}
 	tIdx := 0
+	var lastDomain *target // the latest resolvable domain target of the session being built
 	newTarget := func(rejected bool) *target {
 		t := &target{idx: tIdx}
 		tIdx++
@@ -255,6 +257,9 @@ func Run(s *simrt.Sim, f Focus) {
 		if direct && f != FocusC05 && t.idx > 0 && !rejected && sp.Proto != svc.PDirect && s.GenChance(20) {
 			kind = 7
 		}
+		if lastDomain != nil && !rejected && s.GenChance(48) {
+			kind = 8
+		}
 		switch kind {
 		case 0:
 			t.ip = netip.AddrPortFrom(tIP4[hk], port)
@@ -275,6 +280,16 @@ func Run(s *simrt.Sim, f Focus) {
 			t.ip = netip.AddrPortFrom(ip, port)
 			t.addr = conn.MustAddrFromDomainPort(name, port)
 			t.domain = true
+			lastDomain = t
+		case 8:
+			// the name of the session's previous domain target again, on another port of the same
+			// machine: name and port belong together, datagram by datagram
+			t.host = lastDomain.host
+			p2 := uint16(6500 + t.idx)
+			t.ip = netip.AddrPortFrom(lastDomain.ip.Addr(), p2)
+			t.addr = conn.MustAddrFromDomainPort(lastDomain.addr.Domain(), p2)
+			t.domain = true
+			s.Probe("udprelay.same-name-other-port")
 		case 7:
 			// port 0: the relay's own socket refuses to send there (EINVAL from sendmsg/sendmmsg);
 			// the datagram is lost, everything else must go on
@@ -309,6 +324,7 @@ func Run(s *simrt.Sim, f Focus) {
 	rejectPort := uint16(0)
 	useReject := f != FocusC05 && sp.Proto != svc.PDirect && s.GenChance(48)
 	for i := 0; i < nSess; i++ {
+		lastDomain = nil
 		se := &session{idx: i, user: s.Choose(nUsers), sent: map[int]*sentPkt{}, v6: sp.Listen6 && s.GenChance(128)}
 		if tunnelTarget != nil {
 			se.targets = []*target{tunnelTarget}
@@ -427,7 +443,8 @@ func Run(s *simrt.Sim, f Focus) {
 			if f == FocusC05 {
 				maxDown := cs.MTU - 48 - 80 // below any header overhead of the upstream protocols
 				rl = util.Pick(s, []int{tagLen, maxDown - 1000, maxDown, maxDown + 40, maxDown + 79, sp.MTU - 48 - 80, sp.MTU - 28,
-					sp.MTU - 28 - 40 - s.Choose(70), sp.MTU - 48 - 40 - s.Choose(70)}) // dense around what fits towards an IPv4 / IPv6 client
+					sp.MTU - 28 - 40 - s.Choose(70), sp.MTU - 48 - 40 - s.Choose(70), // dense around what fits towards an IPv4 / IPv6 client
+					cs.MTU - 28 - s.Choose(24), cs.MTU - 48 + s.Choose(3)}) // and around what the relay's outgoing side can receive
 				if rl < tagLen {
 					rl = tagLen
 				}
@@ -447,6 +464,10 @@ func Run(s *simrt.Sim, f Focus) {
 				}
 			} else if rl <= 600 {
 				sent.replySent++
+			} else if f == FocusC05 && direct && want.ip.Addr().Unmap().Is4() && rl <= cs.MTU-28 && rl+130 <= sp.MTU-48 {
+				// fits the relay's outgoing side (IPv4 source) and, with room to spare, the way back to
+				// the client: it has to arrive
+				sent.fitReply++
 			}
 		}
 	}
@@ -744,6 +765,10 @@ func (r *run) traffic() {
 			}
 			if p.replied > 0 {
 				replied++
+			}
+			if f == FocusC05 && !r.faulty && p.fitReply > 0 && p.replied == 0 {
+				r.fail("reply-dropped{fits}", "session %d seq %d: the destination answered with a reply that fits the MTU of both sides (relay outgoing side %d, client side %d) but nothing came back to the client", se.idx, q, r.cs.MTU, r.sp.MTU)
+				return
 			}
 			if f == FocusC11 && !r.faulty && p.mustDeliver {
 				if p.arrived == 0 {
